@@ -439,8 +439,12 @@ def kinds_in(d: Any, acc: set | None = None) -> set:
 
 def safe_call(f, *a, **kw):
     """Run the implementation; map exceptions to the small enum the model uses."""
+    from .common import ImplTimeout, time_limit
     try:
-        return ("ok", f(*a, **kw))
+        with time_limit():
+            return ("ok", f(*a, **kw))
+    except ImplTimeout:
+        return ("err", "exc:did-not-terminate")
     except RuntimeError:
         return ("err", 6)
     except TypeError:
